@@ -1019,17 +1019,15 @@ func (w *Worker) goStmt(fr *frame, instr *ssa.Go) {
 
 // runPending runs queued goroutines; reports whether any ran.
 func (w *Worker) runPending() bool {
-	if len(w.pending) == 0 || w.inGo {
+	// (also from inside a goroutine: the queue shrinks with every start, so a
+	// goroutine that blocks with nothing left to run still ends as unsupported)
+	if len(w.pending) == 0 {
 		return false
 	}
 	for len(w.pending) > 0 {
 		g := w.pending[0]
 		w.pending = w.pending[1:]
-		w.inGo = true
-		func() {
-			defer func() { w.inGo = false }()
-			w.callValue(nil, g.fn, g.args)
-		}()
+		w.callValue(nil, g.fn, g.args)
 	}
 	return true
 }
